@@ -19,40 +19,40 @@ HASH_SEED = "e1deb3c3-d7b8-4c3a-9c2f-8b1b8f3d2a11"
 
 # name, size_kb, mke2fs options, tree profile, extras
 SPECS = [
-    dict(name="ext2_1k", kb=8192, args="-t ext2 -b 1024 -I 128", tree="std", extras=["deepfile"]),
+    dict(index=True, name="ext2_1k", kb=8192, args="-t ext2 -b 1024 -I 128", tree="std", extras=["deepfile"]),
     dict(name="ext2_4k", kb=16384, args="-t ext2 -b 4096 -I 256", tree="std"),
     dict(name="ext2_2k_nosparse", kb=8192, args="-t ext2 -b 2048 -O ^sparse_super,^resize_inode -g 1024",
          tree="tiny"),
     dict(name="ext3_1k", kb=8192, args="-t ext3 -b 1024 -I 256 -J size=1", tree="std"),
-    dict(name="ext3_4k_htree", kb=16384, args="-t ext3 -b 4096 -I 256", tree="wide"),
-    dict(name="ext4_1k", kb=8192, args="-t ext4 -b 1024 -I 256 -J size=1", tree="std",
+    dict(index=True, name="ext3_4k_htree", kb=16384, args="-t ext3 -b 4096 -I 256", tree="wide"),
+    dict(index=True, name="ext4_1k", kb=8192, args="-t ext4 -b 1024 -I 256 -J size=1", tree="std",
          extras=["deepfile", "xattrs"]),
     dict(name="ext4_4k", kb=32768, args="-t ext4 -b 4096 -I 256 -J size=4", tree="std",
          extras=["xattrs"], big=True),
-    dict(name="ext4_1k_wide", kb=16384, args="-t ext4 -b 1024 -I 256 -J size=1", tree="wide"),
+    dict(index=True, name="ext4_1k_wide", kb=16384, args="-t ext4 -b 1024 -I 256 -J size=1", tree="wide"),
     dict(name="ext4_2k_i512", kb=8192, args="-t ext4 -b 2048 -I 512 -O ^has_journal", tree="std",
          extras=["xattrs"]),
     dict(name="ext4_1k_i1024", kb=8192, args="-t ext4 -b 1024 -I 1024 -O ^has_journal -N 512", tree="std",
          extras=["xattrs"]),
     dict(name="ext4_1k_i128", kb=8192, args="-t ext4 -b 1024 -I 128 -O ^has_journal", tree="std"),
-    dict(name="ext4_nocsum", kb=8192, args="-t ext4 -b 1024 -O ^metadata_csum,^uninit_bg -J size=1",
+    dict(index=True, name="ext4_nocsum", kb=8192, args="-t ext4 -b 1024 -O ^metadata_csum,^uninit_bg -J size=1",
          tree="std"),
     dict(name="ext4_gdtcsum", kb=8192, args="-t ext4 -b 1024 -O ^metadata_csum,uninit_bg -J size=1",
          tree="std"),
-    dict(name="ext4_csumseed", kb=8192, args="-t ext4 -b 1024 -O metadata_csum_seed -J size=1",
+    dict(index=True, name="ext4_csumseed", kb=8192, args="-t ext4 -b 1024 -O metadata_csum_seed -J size=1",
          tree="std", extras=["xattrs"]),
     dict(name="ext4_flex4_g", kb=16384, args="-t ext4 -b 1024 -G 4 -g 1024 -J size=1", tree="std"),
     dict(name="ext4_noflex", kb=8192, args="-t ext4 -b 1024 -O ^flex_bg -g 2048 -J size=1", tree="std"),
     dict(name="ext4_metabg", kb=16384, args="-t ext4 -b 1024 -O meta_bg,^resize_inode -g 512 -J size=1",
          tree="std"),
     dict(name="ext4_32bit", kb=8192, args="-t ext4 -b 1024 -O ^64bit -J size=1", tree="std"),
-    dict(name="ext4_bigalloc4", kb=32768, args="-t ext4 -b 1024 -O bigalloc -C 4096 -J size=1", tree="std",
+    dict(index=True, name="ext4_bigalloc4", kb=32768, args="-t ext4 -b 1024 -O bigalloc -C 4096 -J size=1", tree="std",
          extras=["deepfile"]),
     dict(name="ext4_bigalloc16", kb=65536, args="-t ext4 -b 4096 -O bigalloc -C 65536 -J size=4",
          tree="tiny"),
     dict(name="ext4_inline", kb=8192, args="-t ext4 -b 1024 -I 256 -O inline_data -J size=1", tree="std",
          extras=["xattrs"]),
-    dict(name="ext4_inline_4k", kb=16384, args="-t ext4 -b 4096 -I 512 -O inline_data,^has_journal",
+    dict(index=True, name="ext4_inline_4k", kb=16384, args="-t ext4 -b 4096 -I 512 -O inline_data,^has_journal",
          tree="wide"),
     dict(name="ext4_sparse2", kb=16384, args="-t ext4 -b 1024 -O sparse_super2 -g 2048 -J size=1",
          tree="std"),
@@ -64,9 +64,9 @@ SPECS = [
          tree="tiny", quota_after=True),
     dict(name="ext4_orphanfile", kb=8192, args="-t ext4 -b 1024 -O orphan_file -J size=1", tree="std"),
     dict(name="ext4_mmp", kb=8192, args="-t ext4 -b 1024 -O mmp -J size=1", tree="tiny"),
-    dict(name="ext4_largedir", kb=16384, args="-t ext4 -b 1024 -O large_dir -J size=1", tree="wide"),
+    dict(index=True, name="ext4_largedir", kb=16384, args="-t ext4 -b 1024 -O large_dir -J size=1", tree="wide"),
     dict(name="ext4_nodirindex", kb=8192, args="-t ext4 -b 1024 -O ^dir_index -J size=1", tree="std"),
-    dict(name="ext4_64groups", kb=16384, args="-t ext4 -b 1024 -g 256 -N 1024 -J size=1", tree="std"),
+    dict(index=True, name="ext4_64groups", kb=16384, args="-t ext4 -b 1024 -g 256 -N 1024 -J size=1", tree="std"),
     dict(name="ext4_stride", kb=16384, args="-t ext4 -b 4096 -E stride=4,stripe_width=8 -J size=4",
          tree="std"),
     dict(name="ext4_nofiletype", kb=8192, args="-t ext4 -b 1024 -O ^filetype -J size=1", tree="std"),
@@ -182,6 +182,11 @@ def build_image(b, spec, path, work, seed=0, keep_tree=False):
         r = run.run([b.tool("debugfs"), "-w", "-f", sfile, path], env=env, timeout=300)
         if r.rc != 0:
             raise ZooError("debugfs population failed for %s: %s" % (spec["name"], r.etext[-500:]))
+    if spec.get("index"):
+        # libext2fs never creates an htree index by itself; e2fsck -D does
+        r = run.run([b.tool("e2fsck"), "-fyD", path], env=env, timeout=300)
+        if r.rc not in (0, 1):
+            raise ZooError("indexing e2fsck -fyD failed for %s rc=%s: %s" % (spec["name"], r.rc, r.text[-800:]))
     if spec.get("fill") or spec.get("quota_after"):
         # a failed write (ENOSPC) can leave a partially written file; let e2fsck settle counts
         r = run.run([b.tool("e2fsck"), "-fy", path] + (["-j", jdev] if False else []), env=env, timeout=300)
